@@ -5,14 +5,13 @@ Import ListNotations.
 Local Open Scope N_scope.
 
 Section BGEN. Variable cfg : config.
-Hypothesis R : rt_ok cfg.
+Hypothesis Hasc : tbl_ascii_ok cfg = true.
+Hypothesis Hksp : key_special_ascii cfg = true.
 Hypothesis Hsa : scan_ascii_ok cfg = true.
 Hypothesis Hfix : tbl_img_fixed cfg = true.
 Hypothesis Hsc : tbl_img_scalar cfg = true.
 Hypothesis Hnc : tbl_no_comma cfg = true.
 Hypothesis Hck : valid_key cfg s_checksum = true.
-Let Hasc := rt_asc cfg R.
-Let Hksp := rt_ksp cfg R.
 Context {T E : Type} (sh : shape T E).
 
 (* what a shape's finish hook must satisfy for build to be stable: it may rewrite the name only, keeps it valid, and is idempotent *)
@@ -48,8 +47,20 @@ Proof.
     rewrite (Ef1 (p_quals p)). cbn [p_name p_quals with_quals]. rewrite En. rewrite (filter_vals_id _ HV). rewrite Eg. reflexivity.
 Qed.
 
+End BGEN.
+Arguments finish_stable {T E} sh.
+Section BGEN1. Variable cfg : config.
+Hypothesis R : rt_ok cfg.
+Hypothesis Hsa : scan_ascii_ok cfg = true.
+Hypothesis Hfix : tbl_img_fixed cfg = true.
+Hypothesis Hsc : tbl_img_scalar cfg = true.
+Hypothesis Hnc : tbl_no_comma cfg = true.
+Hypothesis Hck : valid_key cfg s_checksum = true.
+Let Hasc := rt_asc cfg R.
+Let Hksp := rt_ksp cfg R.
+Context {T E : Type} (sh : shape T E).
 (* C01 for any shape whose hook is stable and whose type string parses back to the type *)
-Theorem C01_gen s t p : finish_stable ->
+Theorem C01_gen s t p : finish_stable sh ->
   (forall t0 p0 t1 p1, sh_finish sh t0 p0 = Ok (t1, p1) -> valid_type cfg (sh_type sh t1) = true /\ sh_from_str sh (sh_type sh t1) = Ok t1) ->
   parse cfg sh s = Ok (t, p) ->
   format_panics cfg sh t = false /\ parse cfg sh (format cfg sh t p) = Ok (t, p).
@@ -62,7 +73,7 @@ Proof.
   apply bind_ok in H. destruct H as (ns & H7 & H). apply lift_ok in H7.
   apply bind_ok in H. destruct H as (name & Hn & H). apply lift_ok in Hn.
   destruct (checks_fields cfg Hasc Hksp r sub q ver ns name H3 H4 H6 H7 Hn) as [FV SI].
-  destruct (build_stable _ _ _ _ FS FV H) as (Hne & FV' & S1 & S4 & Hb).
+  destruct (build_stable cfg Hasc Hksp Hsa Hfix Hsc Hnc Hck sh _ _ _ _ FS FV H) as (Hne & FV' & S1 & S4 & Hb).
   assert (Hty : valid_type cfg (sh_type sh t) = true /\ sh_from_str sh (sh_type sh t) = Ok t).
   { unfold build in H. destruct (sh_finish sh t0 _) as [[t1 p1]|e] eqn:Ef; [|discriminate]. apply FT in Ef.
     destruct (is_empty (p_name p1)); [discriminate|]. destruct (q_get _ _ _); [|injection H as <- _; exact Ef].
@@ -75,5 +86,5 @@ Proof.
   unfold norm_parts. unfold seg_inv in SI. cbn [p_ns p_sub] in SI. destruct SI as [SI1 SI2].
   cbn [p_ns p_name p_ver p_sub] in S1, S4. rewrite S1, S4, SI1, SI2. rewrite <- S1, <- S4. destruct p; reflexivity.
 Qed.
-End BGEN.
+End BGEN1.
 Print Assumptions C01_gen.
